@@ -106,6 +106,10 @@ def run(tier):
     sm3 = [c for c in cmds if c["sc"] not in gcm_sc]
     chk.exec_and_validate("T_GCM", gcm, keyfn, cost=cost, accel=True, pure_budget=6000000, tag="gcm")
     chk.exec_and_validate("T_SM3", sm3, keyfn, tag="sm3")
+    # static complement (B3): in the extracted listing no store targets an input region
+    from . import c09
+    found = c09.analyse(chk, tier, ("C10",))
+    c09.report(chk, found, c09.strip_c09)
     return chk.finish(
         "model_checking",
         "every (alias, len, cap, need) shape reached by the small model MC_AEADBuf, concretised for Seal and Open "
